@@ -29,7 +29,7 @@ mut("c16_record_twice", "C16", "proxy.go", "\t\trpc.Header.ProxyRecord = append(
 mut("c16_wrong_queue", "C16", "proxy.go", "\tclient, ok := p.clients[destination]", "\tclient, ok := p.clients[rpc.Header.Source]")
 mut("c16_empty_next", "C16", "proxy.go", "if len(rpc.Header.ProxyNext) > 0 {", "if rpc.Header.ProxyNext != nil {")
 mut("c12_no_header_guard", "C12", "server.go", "\t\tif rpc.GetHeader() == nil {\n\t\t\tlog.Warn().Msgf(\"Server: received RPC without a header: ignoring message\")\n\t\t\tcontinue\n\t\t}\n", "")
-mut("c12_body_unknown_no_reset", "C12", "server.go", "\t\treturn h.resetStream(rpc)\n\t}\n\n\tif rpc.GetTrailer() != nil {", "\t\treturn nil\n\t}\n\n\tif rpc.GetTrailer() != nil {")
+mut("c12_body_unknown_no_reset", "C12", "server.go", "\t\tsendReset = true\n\t\treturn nil\n\t}\n\n\tif rpc.GetTrailer() != nil {", "\t\treturn nil\n\t}\n\n\tif rpc.GetTrailer() != nil {")
 mut("c12_panic_on_bad_metadata", "C12", "server.go", "\t\tlog.Error().Err(err).Msg(\"Server: failed to get context from headers\")", "\t\tlog.Panic().Err(err).Msg(\"Server: failed to get context from headers\")")
 mut("c03_unary_ok_code_kept", "C03", "server.go", "\t\tif st.Code() == codes.OK {\n\t\t\t// We know an error *did* occur, so re-write (only) the code\n\t\t\tstpb := st.Proto()\n\t\t\tstpb.Code = int32(codes.Internal)\n\t\t\tst = status.FromProto(stpb)\n\t\t}\n\t\trespStatus", "\t\trespStatus")
 mut("c06_response_not_swapped", "C06,C01", "server.go", "\t\tSource:      rpc.Header.Destination,\n\t\tDestination: rpc.Header.Source,\n\t}\n\tif len(rpc.Header.ProxyRecord) > 1 {\n\t\trespHeader", "\t\tSource:      rpc.Header.Source,\n\t\tDestination: rpc.Header.Destination,\n\t}\n\tif len(rpc.Header.ProxyRecord) > 1 {\n\t\trespHeader")
@@ -52,7 +52,7 @@ mut("c18_run_lookup_wrong_key", "C18", "demux.go", "\tconn, ok := gsd.conns.valu
 mut("c19_ws_text_accepted", "C19", "websocket.go", "\tif typ != websocket.MessageBinary {\n\t\treturn nil, errNonBinaryWebsocketMessage\n\t}\n", "\t_ = errNonBinaryWebsocketMessage\n\t_ = typ\n")
 mut("c19_ws_write_text", "C19", "websocket.go", "return ws.conn.Write(ctx, websocket.MessageBinary, data)", "return ws.conn.Write(ctx, websocket.MessageText, data)")
 mut("c19_http_deliver_before_source_check", "C19", "http.go", "\tif rpc.Header == nil || rpc.Header.Source == \"\" {", "\tif rpc.Header == nil {")
-mut("c19_chan_write_blocking", "C19", "channel.go", "\t\tselect {\n\t\tcase <-ctx.Done():\n\t\t\treturn ctx.Err()\n\t\tcase outQ <- rpc:\n\t\t\treturn nil\n\t\t}", "\t\toutQ <- rpc\n\t\treturn nil")
+mut("c19_chan_write_blocking", "C19", "channel.go", "\t\tselect {\n\t\tcase <-ctx.Done():\n\t\t\treturn ctx.Err()\n\t\tcase <-done:\n\t\t\treturn fmt.Errorf(\"write channel closed\")\n\t\tcase outQ <- rpc:\n\t\t\treturn nil\n\t\t}", "\t\toutQ <- rpc\n\t\treturn nil")
 mut("c20_end_error_dropped", "C20", "internal/util.go", "\t\tif appErr != nil && !errors.Is(appErr, io.EOF) {", "\t\tif appErr != nil && errors.Is(appErr, io.EOF) {")
 mut("c20_begin_twice", "C20", "internal/util.go", "\t\tsh.HandleRPC(ctx, statsBegin)\n", "\t\tsh.HandleRPC(ctx, statsBegin)\n\t\tsh.HandleRPC(ctx, statsBegin)\n")
 mut("c14_failed_open_no_teardown", "C14", "client.go", "\t\tteardown()\n\t\treturn nil, err", "\t\treturn nil, err")
